@@ -9,7 +9,7 @@ WT=$(mktemp -d /tmp/seedwt.XXXXXX)
 git -C /repo worktree add --detach "$WT/repo" HEAD >/dev/null 2>&1 || { echo "worktree failed"; exit 2; }
 trap 'git -C /repo worktree remove --force "$WT/repo" >/dev/null 2>&1; rm -rf "$WT"' EXIT
 cd "$WT/repo"
-cp "$DEMO" "$PKG/" || { echo "cannot place demo"; exit 2; }
+mkdir -p "$PKG"; cp "$DEMO" "$PKG/" || { echo "cannot place demo"; exit 2; }
 DEMOBASE=$(basename "$DEMO")
 # without the change: demo passes
 if ! go test -vet=off -count=1 -run "$RUN" "./$PKG/" >"$WT/nochange.log" 2>&1; then echo "NOT-CONFIRMED: demo fails WITHOUT the change"; tail -15 "$WT/nochange.log"; exit 1; fi
